@@ -603,8 +603,56 @@ func checkExtremumDomain(w *World, r *Report, fn *ssa.Function, loops []*natLoop
 		}
 		skips = append(skips, w.Pos(ifi.Cond.Pos()))
 	}
+	// the loop ranges over the whole list: its bound is len(x) of a value that
+	// is not a proper re-slice x[a:b] (a prefix scan drops the glyphs behind it;
+	// for advanceWidthMax a prefix up to the last distinct width is equivalent,
+	// for the side bearings it is not: every glyph has its own extent)
+	prefix := token.NoPos
+	if wantSkip {
+		for _, in := range loop.head.Instrs {
+			var lenArg ssa.Value
+			if c, ok := in.(*ssa.Call); ok {
+				if bi, ok := c.Call.Value.(*ssa.Builtin); ok && bi.Name() == "len" {
+					lenArg = c.Call.Args[0]
+				}
+			}
+			if lenArg == nil {
+				continue
+			}
+			if sl, ok := lenArg.(*ssa.Slice); ok && (sl.High != nil || sl.Low != nil) {
+				prefix = sl.Pos()
+			}
+		}
+		// go/ssa evaluates len(x) of a range loop before the loop
+		for _, b := range fn.Blocks {
+			for _, in := range b.Instrs {
+				c, ok := in.(*ssa.Call)
+				if !ok {
+					continue
+				}
+				bi, ok := c.Call.Value.(*ssa.Builtin)
+				if !ok || bi.Name() != "len" || c.Referrers() == nil {
+					continue
+				}
+				usedByLoop := false
+				for _, ref := range *c.Referrers() {
+					if ref.Block() == loop.head {
+						usedByLoop = true
+					}
+				}
+				if !usedByLoop {
+					continue
+				}
+				if sl, ok := c.Call.Args[0].(*ssa.Slice); ok && (sl.High != nil || sl.Low != nil) {
+					prefix = sl.Pos()
+				}
+			}
+		}
+	}
 	key := r.MkKey("extremumdomain", fnName(fn), "elements of "+name)
 	switch {
+	case prefix.IsValid():
+		r.Fail("extremumdomain", key, w.Pos(st.Pos()), fmt.Sprintf("%s is taken over a re-sliced part of the glyph list (%s): the glyphs outside it are left out although each has its own extent", name, w.Pos(prefix)), nil)
 	case !wantSkip && len(skips) > 0:
 		r.Fail("extremumdomain", key, w.Pos(st.Pos()), fmt.Sprintf("%s is defined as the maximum over all entries, but the update is skipped for some elements (condition at %s): an element that is skipped and larger than all others is lost", name, strings.Join(skips, ", ")), nil)
 	case wantSkip && !blank:
